@@ -2163,7 +2163,16 @@ impl<'a> Visitor<'a> {
 
         let mut named = BTreeMap::new();
 
-        for (key, expr) in arguments.named {
+        // keyword arguments are evaluated in the order they were written, not in
+        // the order of the map they are stored in
+        let mut named_exprs = arguments.named;
+        for key in arguments.named_order {
+            if let Some(expr) = named_exprs.remove(&key) {
+                let val = self.visit_expr(expr)?;
+                named.insert(key, self.without_slash(val));
+            }
+        }
+        for (key, expr) in named_exprs {
             let val = self.visit_expr(expr)?;
             named.insert(key, self.without_slash(val));
         }
